@@ -1588,7 +1588,7 @@ func genSubmit(r *Rand) Input {
 // cut by the caller, and the call still answers at the timeout or with the first acceptance).  Drawn
 // last, so the rest of the scenario is what it would have been without it.
 func genDeadline(r *Rand, in *Input) {
-	if !r.Chance(2, 5) {
+	if !r.Chance(1, 2) {
 		return
 	}
 	T := in.TimeoutMs
@@ -1632,8 +1632,8 @@ func genDeadline(r *Rand, in *Input) {
 		if r.Chance(1, 3) {
 			in.DeadlineMs = uint64(r.Range(int(T)/2, int(T)-2))
 		}
-		in.Deaf = r.Chance(1, 2)
-		if r.Chance(2, 3) {
+		in.Deaf = r.Chance(2, 3)
+		if r.Chance(3, 4) {
 			// one node plainly accepts between the caller's deadline and the timeout
 			j := r.Intn(len(nd))
 			nd[j].Default = Beh{Delay: uint64(r.Range(int(in.DeadlineMs)+1, int(T)-1))}
